@@ -66,6 +66,8 @@ def _load_setup(kind):
         self.fields["_parse_ini_stream"] = _failing("_parse_ini_stream", ("ValueError", "KeyError"), lambda i, a, k: SDict({"schemes": fresh_str(i, "ini_value")}))
         self.fields["_parse_config_key"] = _failing("_parse_config_key", ("KeyError", "TypeError"), lambda i, a, k: (None, None, a[0]))
         self.fields["_reset_dummy_verify"] = counting("_reset_dummy_verify", lambda i, a, k: None)
+        # left behind by an earlier load() of a configuration without context keywords (user=, realm=, ...)
+        self.fields["_strip_unused_context_kwds"] = Union(Const(None), Const("instance override left by an earlier load")).make(it, "strip_flag0")
         self.fields["_get_record"] = "old getter"
         self.fields["_identify_record"] = "old identifier"
         it.run.ghost["old_config"] = old
@@ -93,6 +95,18 @@ def _installed(it, env):
     return self.fields.get("_config") is cfg and self.fields.get("_get_record") is cfg.fields["get_record"] and self.fields.get("_identify_record") is cfg.fields["identify_record"]
 
 
+def _strip_ok(it, env):
+    cfg = it.run.ghost["new_config"]
+    fields = it.resolve(env.lookup("self")).fields
+    has_kwds = it.truth(cfg.fields["context_kwds"])
+    if has_kwds is True:
+        return "_strip_unused_context_kwds" not in fields
+    if has_kwds is False:
+        return fields.get("_strip_unused_context_kwds", "absent") is None
+    import z3 as _z3
+    return _z3.If(has_kwds, _z3.BoolVal("_strip_unused_context_kwds" not in fields), _z3.BoolVal(fields.get("_strip_unused_context_kwds", "absent") is None))
+
+
 def _untouched(it, env):
     self = env.lookup("self")
     return self.fields.get("_get_record") == "old getter" and self.fields.get("_identify_record") == "old identifier" and not any(w[0] is self for w in it.run.writes)
@@ -113,6 +127,11 @@ for _kind in ("dict", "empty", "text", "context", "bad"):
             ("a successful load installs the new config and its record getters", lambda it, env: True if it.run.ghost.get("new_config") is None else _installed(it, env)),
             ("update(): the current configuration is merged in RESOLVED form (hasher objects, so that hashers that are not registered by name survive)",
              lambda it, env: True if "merge_resolve" not in it.run.ghost else it.truth(it.run.ghost["merge_resolve"])),
+            ("after a successful load the keyword-stripping helper matches the NEW configuration: disabled (None) exactly when no scheme takes a context keyword, otherwise the class's method is in effect again (no stale per-instance None)",
+             lambda it, env: True if it.run.ghost.get("new_config") is None else it.ite_bool(
+                 it.truth(it.run.ghost["new_config"].fields["context_kwds"]),
+                 "_strip_unused_context_kwds" not in it.resolve(env.lookup("self")).fields,
+                 it.resolve(env.lookup("self")).fields.get("_strip_unused_context_kwds", "absent") is None) if hasattr(it, "ite_bool") else _strip_ok(it, env)),
             ("the dummy-verify cache is reset exactly once per installed config", lambda it, env: (it.bi_calls("_reset_dummy_verify") == (1 if it.run.ghost.get("new_config") is not None else 0))),
         ],
         descr=f"source kind: {_kind}; every fallible step may raise",
@@ -152,3 +171,4 @@ MUTANTS = [
 ]
 MUTANTS += c10_options.MUTANTS
 MUTANTS += [("update(): current config merged by scheme NAME (custom unregistered hashers lost)", CTX, "            source = dict(self._config.iter_config(resolve=True))", "            source = dict(self._config.iter_config())", "refute", r"CryptContext.load\[dict")]
+MUTANTS += [("load(): keyword stripping stays disabled after a reload that adds a scheme with a context keyword", CTX, "            self.__dict__.pop(\"_strip_unused_context_kwds\", None)\n", "            pass\n", "refute", r"CryptContext.load\[dict")]
